@@ -213,6 +213,47 @@ func (s *State) simplify(t *Term, depth int) *Term {
 	return out
 }
 
+// selectKnown reads an object-indexed heap array at reference ref, skipping stores to references that are known to
+// be different objects: by a recorded disequality, or because the store went to an object allocated during this
+// execution (watermark + k) while ref is a parameter of the function (it existed at entry). The result is equal to
+// select(arr, ref); only the term is smaller - which keeps predicates over "the same" memory syntactically equal.
+func (s *State) selectKnown(arr *Term, ref *Term) *Term {
+	for arr.Kind == KApp && arr.Op == "store" && len(arr.Args) == 3 {
+		i := arr.Args[1]
+		distinct := false
+		if s.facts != nil && s.facts["!distinct:"+i.String()+"|"+ref.String()] != nil {
+			distinct = true
+		}
+		if !distinct && isAllocTerm(i) && ref.Kind == KVar && strings.HasPrefix(ref.Op, "in.") {
+			distinct = true
+		}
+		if !distinct {
+			break
+		}
+		arr = arr.Args[0]
+	}
+	return Select(arr, ref)
+}
+
+// isAllocTerm: watermark + positive literal (the reference of an object allocated during this execution)
+func isAllocTerm(t *Term) bool {
+	if t.Kind != KApp || t.Op != "+" || len(t.Args) != 2 {
+		return false
+	}
+	k := t.Args[1]
+	if k.Kind != KLit {
+		return false
+	}
+	if n, ok := k.IntVal(); !ok || n.Sign() <= 0 {
+		return false
+	}
+	b := t.Args[0]
+	if b.Kind == KVar && strings.HasPrefix(b.Op, "alloc") {
+		return true
+	}
+	return isAllocTerm(b)
+}
+
 func (s *State) infeasible() bool {
 	for _, p := range s.pc {
 		if p.IsFalse() {
@@ -441,13 +482,13 @@ func (r *Run) load(st *State, a *Addr, t types.Type, te TypeEnv) *Val {
 		for _, l := range ls {
 			name := joinPath(joinPath(a.Base, a.Path), l.Path)
 			noteRefComp(name, l, te)
-			v.L = append(v.L, Select(st.comp(name, ArrSort(SInt, l.Sort)), a.Ref))
+			v.L = append(v.L, st.selectKnown(st.comp(name, ArrSort(SInt, l.Sort)), a.Ref))
 		}
 	case AElem:
 		for _, l := range ls {
 			name := joinPath(joinPath(a.Base, a.Path), l.Path)
 			noteRefComp(name, l, te)
-			v.L = append(v.L, Select(Select(st.comp(name, ArrSort(SInt, ArrSort(SInt, l.Sort))), a.Ref), a.Idx))
+			v.L = append(v.L, Select(st.selectKnown(st.comp(name, ArrSort(SInt, ArrSort(SInt, l.Sort))), a.Ref), a.Idx))
 		}
 	case AGlobal:
 		for _, l := range ls {
